@@ -83,6 +83,17 @@ func ctxScenario(p ctxParams) func() {
 			}
 			return world.Reply{}
 		}
+		if p.state == "nsw-then-reset" {
+			// history: a no-send-waiting one-way message was written to node 1, then its stream was reset (and is
+			// re-created): whatever that leaves behind must not hold up the call under test
+			b := w.NewCall("Unicast")
+			b.Node, b.NoSendWaiting = 1, true
+			b.Ctx = context.Background()
+			w.Invoke(b)
+			mc.Quiesce()
+			w.FW.Reset(world.Addr(1))
+			mc.Quiesce()
+		}
 		if p.state == "crashed" {
 			// node 1 was connected and has crashed: sender and receiver go through reconnect and its back-off
 			w.FW.Crash(world.Addr(1))
@@ -187,8 +198,66 @@ func ctxScenario(p ctxParams) func() {
 	}
 }
 
+// slowConsumerScenario: another call's replies are consumed slowly - a server-stream correctable whose quorum
+// function is blocked, so that node 1's receiver is parked on the full reply channel. A call issued to node 1
+// in that state must still return once its own context ends.
+func slowConsumerScenario(kind string) func() {
+	return func() {
+		w := world.New(world.Opts{N: 1, Window: 4})
+		if w.Cfg == nil {
+			return
+		}
+		tokA := 0
+		w.Handle = func(h *world.HCtx) world.Reply {
+			if h.Tok == tokA {
+				h.Release()
+				for i := 0; i < 3; i++ {
+					if h.Send(i, 0) != nil {
+						break
+					}
+				}
+			}
+			return world.Reply{}
+		}
+		a := w.NewCall("CorrectableStream")
+		tokA = a.Tok
+		first := true
+		a.Verdict = func(inv *world.QFInv) {
+			if first {
+				first = false
+				w.Wait("qf")
+			}
+			inv.Level = len(a.QF) + 1
+		}
+		w.Start(a)
+		mc.Quiesce() // the receiver is parked on the full reply channel
+		c := w.NewCall(kind)
+		if kind == "GRPCCall" || kind == "Unicast" {
+			c.Node = 1
+		}
+		c.Verdict = func(inv *world.QFInv) { inv.Quorum = true }
+		w.Start(c)
+		mc.GoLow("cancel", func() { c.Cancel(context.Canceled) })
+		mc.Quiesce()
+		name := "ctxend/" + kind + "/another-call-consumes-slowly"
+		done, _ := callDone(c)
+		if !done {
+			fail("C08/not-returned", classOf(kind)+"/another-call-consumes-slowly", "%s: the context has ended but the call has not returned: it waits for the lock that node 1's receiver holds while it hands a reply to another call's slow quorum function", name)
+			mc.Outcome("stuck")
+		} else {
+			mc.Outcome("returned")
+		}
+		w.Open("qf")
+		a.Cancel(context.Canceled)
+		mc.Quiesce()
+	}
+}
+
 func ctxInstances(tier string) []Instance {
 	var out []Instance
+	for _, kind := range []string{"GRPCCall", "QuorumCall", "QuorumCallAsync", "Unicast"} {
+		out = append(out, Instance{Name: "ctxend/" + kind + "/another-call-consumes-slowly", Bound: 1, Root: slowConsumerScenario(kind)})
+	}
 	type k struct {
 		kind string
 		nsw  bool
@@ -199,7 +268,7 @@ func ctxInstances(tier string) []Instance {
 		kinds = append(kinds, k{"QuorumCallCombo", false}, k{"QuorumCallAsyncPerNodeArg", false}, k{"MulticastPerNodeArg", false})
 	}
 	for _, kd := range kinds {
-		for _, st := range []string{"down", "silent", "window-full", "sender-busy", "abandoned-stream", "crashed"} {
+		for _, st := range []string{"down", "silent", "window-full", "sender-busy", "abandoned-stream", "crashed", "nsw-then-reset"} {
 			for _, buf := range []uint{0, 1, 2} {
 				if buf == 2 && !thorough(tier) {
 					continue
@@ -216,6 +285,9 @@ func ctxInstances(tier string) []Instance {
 							continue
 						}
 						bound := 2
+						if st == "nsw-then-reset" && (buf != 0 || pre || cause != context.Canceled) {
+							continue
+						}
 						if st == "abandoned-stream" {
 							if pre || cause != context.Canceled {
 								continue
@@ -236,7 +308,7 @@ func ctxInstances(tier string) []Instance {
 
 func init() {
 	register(&Check{ID: "C08",
-		Rule:        "9 call variants (12 thorough) x node-1 state {down at creation, crashed after it was connected (reconnect and back-off in progress), silent (handler never returns), window full (this call's write blocks), sender busy (an earlier message with a never-ending context is stuck in the write, this call queues behind it), an earlier server-stream call abandoned by an adversary thread while the servers stream} x send buffer {0,1(,2)} x context end {Canceled, DeadlineExceeded, cancelled with a cause (silent state)} x {already ended before the call, ended by an adversary thread placed by the explorer at every instant within the deviation bound: before queuing, while queued, while being written, while waiting}; oracle (strict, untimed): at quiescence after the context ended - no timer fired, no handler returned - the call has returned / its future or correctable is done, and a reported error matches the context's error under errors.Is; an outcome is (instance, returned, error reported)",
+		Rule:        "9 call variants (12 thorough) x node-1 state {down at creation, crashed after it was connected (reconnect and back-off in progress), silent (handler never returns), window full (this call's write blocks), sender busy (an earlier message with a never-ending context is stuck in the write, this call queues behind it), an earlier server-stream call abandoned by an adversary thread while the servers stream, a no-send-waiting one-way message followed by a stream reset} x send buffer {0,1(,2)} x context end {Canceled, DeadlineExceeded, cancelled with a cause (silent state)} x {already ended before the call, ended by an adversary thread placed by the explorer at every instant within the deviation bound: before queuing, while queued, while being written, while waiting}; plus calls issued while node 1's receiver is parked handing a reply to another call's blocked quorum function; oracle (strict, untimed): at quiescence after the context ended - no timer fired, no handler returned - the call has returned / its future or correctable is done, and a reported error matches the context's error under errors.Is; an outcome is (instance, returned, error reported)",
 		Gen:         ctxInstances,
 		Assumptions: []string{"'promptly' is decided in its untimed form: completion by library-internal steps only, without any timer expiry or further message", "transport window 1 so that a non-reading server blocks the second unread write"},
 	})
